@@ -271,6 +271,7 @@ structure ImplMon where
   time : Time := 0
   modified : Modified := {}
   halted : Bool := false
+  evals : Nat := 0
 
 def ImplMon.flush (m : ImplMon) : ImplMon × List String :=
   let kind := ((m.op.splitOn " ").headD "")
@@ -280,7 +281,7 @@ def ImplMon.flush (m : ImplMon) : ImplMon × List String :=
   let l := loadDump m.cur m.time modified
   let fails := (monitorLines l.s (kind = "end")).map fun v => s!"I {m.n} {v.drop 2} | {m.op}"
   let bad := (l.bad.take 3).map fun b => s!"I {m.n} wellFormed {b.replace " " "_"} | {m.op}"
-  ({ m with modified := modified }, fails ++ bad)
+  ({ m with modified := modified, evals := m.evals + 1 }, fails ++ bad)
 
 def ImplMon.feed (m : ImplMon) (line : String) : ImplMon × List String :=
   if line.startsWith "> " then
@@ -315,8 +316,9 @@ def ImplMon.feed (m : ImplMon) (line : String) : ImplMon × List String :=
 partial def implMonLoop (h : IO.FS.Stream) (out : IO.FS.Stream) (m : ImplMon) : IO Unit := do
   let line ← h.getLine
   if line.isEmpty then
-    let (_, outs) := m.flush
+    let (m', outs) := m.flush
     for o in outs do out.putStrLn o
+    out.putStrLn s!"Isum states={m'.evals}"
     return ()
   let (m', outs) := m.feed (line.dropEndWhile (· = '\n')).toString
   for o in outs do out.putStrLn o
